@@ -750,6 +750,9 @@ func writeReplay(path string, f *Failure) {
 
 func writeEvidence(prop string, ld *loaded, ws []*Worker, results []*HarnessResult, stats SolverStats, paths map[string]int, nontrivial int,
 	samples []interface{}, violations []*Failure, knownLines []string, incomplete bool, vacuous []string, replayed int, wall float64) {
+	if os.Getenv("GOSYM_NOEVIDENCE") != "" {
+		return // (runs against a seeded scratch tree must not overwrite the evidence of the real tree)
+	}
 	funcs := map[string]int{}
 	intr := map[string]bool{}
 	nfuncs := 0
